@@ -30,7 +30,7 @@ NOSHRINK = ("clear", "pop_back", "erase", "resize", "assign", "operator=")
 
 
 def units(tier):
-    return [driver("reusable.cc"), driver("reusable.cc", ndebug=False)]
+    return [driver("reusable.cc"), driver("reusable.cc", ndebug=False), lib("reusable/message.cpp"), lib("reusable/message.trick.cpp", extra=["-fno-access-control"])]
 
 
 def nin(a, b, c):
@@ -58,6 +58,27 @@ def mentions_data_elem(d):
         if sd.get("k") == "idx" and this_field(sd.get("b"), "_data"):
             return True
     return False
+
+
+def grows_only(ig, a, live):
+    """the assignment `F = v` can only raise F: v is max(F, ...) or the store is behind `F < v`"""
+    lhs = strip_cast(a.ev["lhs"])
+    rhs = ig.resolve(a.ev.get("rhs"), a.frame)
+    srcs = [ig.ev_of(o) for o in ig.origins(rhs)]
+    mx = [s for s in srcs if s is not None and s.ev.get("name") == "max"]
+    if mx and any(pstr(strip_cast(ig.resolve(x, mx[0].frame))) == pstr(lhs) for x in mx[0].ev.get("args", [])):
+        return True
+
+    def less(atom, pol, lab):
+        c = L.effective_cmp(atom, pol)
+        if c is None:
+            return False
+        op, l, r = c
+        if op == ">":
+            op, l, r = "<", r, l
+        return op == "<" and pstr(strip_cast(l)) == pstr(lhs) and pstr(strip_cast(r)) == pstr(strip_cast(rhs))
+    le = L.cond_edges(ig, less, live)
+    return bool(le) and a.id not in ig.reach([ig.entry], removed_edges=le)
 
 
 def run(ctx):
@@ -518,9 +539,7 @@ def run(ctx):
         for a in asgs:
             lhs = strip_cast(a.ev["lhs"])
             metas.setdefault(lhs.get("rec"), set()).add(lhs.get("n"))
-            srcs = [ig.ev_of(o) for o in ig.origins(ig.resolve(a.ev.get("rhs"), a.frame))]
-            mx = [s for s in srcs if s is not None and s.ev.get("name") == "max"]
-            if not mx or not any(pstr(strip_cast(ig.resolve(x, mx[0].frame))) == pstr(lhs) for x in mx[0].ev.get("args", [])):
+            if not grows_only(ig, a, live):
                 ok, why = False, "field %s is overwritten instead of raised to max(old, current)" % lhs.get("n")
         if VEC.match(fn.record or ""):
             # the element walk covers every constructed element
@@ -549,7 +568,9 @@ def run(ctx):
                         used.add(sd.get("n"))
         cons = [n for n in evs if n.ev["e"] == "call" and n.ev.get("name") == "construct"]
         res = [n for n in evs if n.ev["e"] == "call" and n.ev.get("name") in ("reserve", "stable_reserve")]
-        ctx.ob("C12.R4b", L.short(fn)[:120], "capacity" in used and bool(cons) and bool(res) and
+        # protobuf messages: the metadata object applies itself (MessageAllocationMetadata::reserve(message))
+        by_meta = any(isinstance(strip_cast(r.ev.get("this")), dict) and strip_cast(r.ev["this"]).get("k") == "p" for r in res)
+        ctx.ob("C12.R4b", L.short(fn)[:120], ("capacity" in used or by_meta) and bool(cons) and bool(res) and
                all(ig.dominated_by(r, cons) for r in res), fn.loc,
                "re-creation must construct the object and then reserve the recorded capacity")
     mfn = fb.find(pred=lambda f: VEC.match(f.record or "") and f.kind == "ctor" and "AllocationMetadata" in f.sig and f.has_cfg())
@@ -562,7 +583,43 @@ def run(ctx):
             any(n.ev["e"] == "init" and n.ev.get("field") == "_size" and const_val(n.ev.get("v", n.ev.get("init"))) == 0 for n in evs)
         ctx.ob("C12.R4b", short(fn), ok, fn.loc,
                "a vector re-created from metadata is empty and pre-constructs its elements from the element metadata")
-    ctx.floor("C12.R4", n4, 8, "allocation-metadata producers and consumers")
+    FAM = "babylon::MessageAllocationMetadata::FieldAllocationMetadata"
+    sw = {}
+    for fn in fb.find(pred=lambda f: f.record == FAM and f.has_cfg() and f.name in
+                      ("update", "update_repeated_field", "reserve_repeated_field")):
+        ig = IG(fn, inline=nin)
+        live = ig.live_nodes()
+        evs = [n for n in ig.ev_nodes() if n.id in live]
+        if fn.name.startswith("update"):
+            asgs = [n for n in evs if n.ev["e"] == "asg" and this_field(n.ev.get("lhs")) and strip_cast(n.ev["lhs"]).get("n", "").endswith("_reserved")]
+            if asgs:
+                n4 += 1
+                bad = [a for a in asgs if not grows_only(ig, a, live)]
+                ctx.ob("C12.R4a", "%s%s" % (L.short(fn)[:90], fn.sig[:60]), not bad, bad[0].where if bad else fn.loc,
+                       "allocation metadata must only grow across cycles: a recorded reservation is overwritten instead of raised",
+                       site="FieldAllocationMetadata::%s@metadata-max" % fn.name)
+        if fn.name.endswith("_repeated_field"):
+            cases = set()
+            for nd in ig.nodes:
+                for m, lab in nd.succ:
+                    if lab is None or lab.case in (None, "default"):
+                        continue
+                    r = ig.reach([m], removed=[nd])
+                    if fn.name.startswith("reserve"):
+                        eff = any(x.id in r and x.ev["e"] == "call" and x.ev.get("name") == "Reserve" for x in evs)
+                    else:
+                        eff = any(x.id in r and x.ev["e"] == "asg" and this_field(x.ev.get("lhs"), "repeated_reserved") for x in evs)
+                    if eff:
+                        cases.add(lab.case)
+            sw[fn.name] = (cases, fn)
+    if "update_repeated_field" in sw and "reserve_repeated_field" in sw:
+        n4 += 1
+        u, r_ = sw["update_repeated_field"][0], sw["reserve_repeated_field"][0]
+        ctx.ob("C12.R4c", "FieldAllocationMetadata::update_repeated_field / reserve_repeated_field", u == r_ and len(u) >= 8,
+               sw["reserve_repeated_field"][1].loc,
+               "every repeated-field kind whose capacity is recorded must be reserved on re-creation and vice versa: recorded %s, "
+               "reserved %s" % (sorted(u - r_), sorted(r_ - u)))
+    ctx.floor("C12.R4", n4, 10, "allocation-metadata producers and consumers")
 
     # ---------------------------------------------------------------- R6 reconstruct dispatch
     n6 = 0
@@ -601,3 +658,10 @@ def run(ctx):
                "move assignment may swap buffers only when both strings use the same allocator (otherwise memory of one resource "
                "outlives or escapes it)")
     ctx.floor("C12.R6", n6, 6, "reconstruct dispatch instances")
+
+
+SWEEP = ["reusable/test_vector.cpp",
+         "reusable/test_string.cpp",
+         "reusable/test_manager.cpp",
+         "reusable/test_traits.cpp",
+         "reusable/test_message.cpp"]
